@@ -33,6 +33,7 @@ func runC12(r *Run, verifDir string) {
 	c12A4(r)
 	c12A5(r)
 	freshResponseMessage(r, "C12.A6")
+	c12A7(r)
 }
 
 func c12A1(r *Run, reg *Registry) {
@@ -457,6 +458,7 @@ func runC13(r *Run, verifDir string) {
 	c13N7(r)
 	c13N8(r)
 	c13N9(r)
+	c13N10(r)
 	if nv == nil {
 		r.Unk("C13.N1", "kmipclient.Client.negotiateVersion", token.NoPos, "anchor missing")
 		return
@@ -1613,4 +1615,111 @@ func replacementOutcome(fn *ssa.Function, cmp *ssa.BinOp) (bool, bool) {
 		}
 	})
 	return res, known
+}
+
+// c12A7: what the client validates and hands back is what it decoded. No code of the client stores into the item list
+// of a response message, into one of its items, or into the fields of an item: a "realigned", filtered or patched list
+// can hide a failed item (a slot left at its zero value reads as Success) or present an item the server never sent.
+func c12A7(r *Run) {
+	r.Rule("C12.A7", "the client never rewrites a decoded response: no store into ResponseMessage.BatchItem, into an element of it, or into a field of a ResponseBatchItem", 1)
+	n := 0
+	for _, fn := range pkgFuncs(r.P, "kmipclient") {
+		ord := 0
+		allInstrs(fn, func(in ssa.Instruction) {
+			st, ok := in.(*ssa.Store)
+			if !ok {
+				return
+			}
+			what := ""
+			switch a := st.Addr.(type) {
+			case *ssa.FieldAddr:
+				owner := typeName(derefType(a.X.Type()))
+				f := fname(derefStruct(a.X.Type()).Field(a.Field))
+				if owner == "ResponseMessage" && f == "BatchItem" {
+					what = "replaces the item list of a response message"
+				}
+				if owner == "ResponseBatchItem" {
+					// a literal being built in a local of this function is not a decoded item
+					if al, isAlloc := a.X.(*ssa.Alloc); !isAlloc || al.Heap {
+						what = "writes field " + f + " of a response item"
+					}
+				}
+			case *ssa.IndexAddr:
+				if sl, ok := a.X.Type().Underlying().(*types.Slice); ok && typeName(sl.Elem()) == "ResponseBatchItem" {
+					if _, fresh := a.X.(*ssa.MakeSlice); !fresh {
+						what = "overwrites an element of a response item list"
+					}
+				}
+			}
+			if what == "" {
+				return
+			}
+			n++
+			ord++
+			r.Bad("C12.A7", fmt.Sprintf("%s/response-rewrite#%d", fnKey(fn), ord), st.Pos(), "%s %s: the items the per-item checks see and the caller receives are no longer the ones the server sent — a failed item can be dropped or replaced by a zero item, which reads as a successful one", fnKey(fn), what)
+		})
+	}
+	if n == 0 {
+		r.OK("C12.A7", "kmipclient/response-rewrite", token.NoPos, "no function of the client stores into a response message's items")
+	}
+}
+
+// c13N10: the selection is total over the server's list. The loops of negotiateVersion only skip or remember versions;
+// none of them can end the negotiation with an error: a version the client did not offer, a duplicate or an
+// unordered list is no reason to fail when a common version exists.
+func c13N10(r *Run) {
+	r.Rule("C13.N10", "no loop of negotiateVersion returns an error: the server's list is scanned to its end whatever it contains", 1)
+	fn := r.P.Func("kmipclient", "Client", "negotiateVersion")
+	if fn == nil {
+		r.Unk("C13.N10", "kmipclient.Client.negotiateVersion/loops", token.NoPos, "anchor missing")
+		return
+	}
+	nLoops, bad := 0, token.NoPos
+	fns := []*ssa.Function{fn}
+	fns = append(fns, fn.AnonFuncs...)
+	for _, f := range fns {
+		for _, hdr := range f.Blocks {
+			isHdr := false
+			for _, pr := range hdr.Preds {
+				if hdr.Dominates(pr) {
+					isHdr = true
+				}
+			}
+			if !isHdr {
+				continue
+			}
+			nLoops++
+			within := reachableFromWithin(hdr)
+			for b := range within {
+				for _, s := range b.Succs {
+					if within[s] {
+						continue
+					}
+					// an exit of the loop: follow it to a return without passing a merge with the normal exit
+					for x := s; x != nil; {
+						if ret, ok := x.Instrs[len(x.Instrs)-1].(*ssa.Return); ok {
+							if n := len(ret.Results); n > 0 && !isNilConst(ret.Results[n-1]) && b != hdr {
+								if _, isPhi := ret.Results[n-1].(*ssa.Phi); !isPhi {
+									bad = ret.Pos()
+								}
+							}
+							break
+						}
+						if len(x.Succs) != 1 || len(x.Succs[0].Preds) != 1 {
+							break
+						}
+						x = x.Succs[0]
+					}
+				}
+			}
+		}
+	}
+	switch {
+	case bad.IsValid():
+		r.Bad("C13.N10", "kmipclient.Client.negotiateVersion/loops", bad, "a loop of negotiateVersion returns an error from its body: the negotiation fails on the content of the server's list (an unoffered, duplicated or misplaced version) although a common version may exist")
+	case nLoops == 0:
+		r.OK("C13.N10", "kmipclient.Client.negotiateVersion/loops", fn.Pos(), "no loop (selection through library calls)")
+	default:
+		r.OK("C13.N10", "kmipclient.Client.negotiateVersion/loops", fn.Pos(), "%d loop(s), none with an error exit from the body", nLoops)
+	}
 }
